@@ -256,7 +256,13 @@ theorem lc5_shape (cfg : Cfg) (e : Endian) (t : Ty) (f : Val) (hwf : wfVal cfg .
   | str => simp [Ty.lc5] at h5
   | enum _ _ _ => simp [Ty.lc5] at h5
   | wstr => simp [Ty.lc5] at h5
-  | union _ _ => simp [Ty.lc5] at h5
+  | union app disc bs =>
+    cases app with
+    | false => simp [Ty.lc5] at h5
+    | true =>
+      cases f <;> try (simp [wfVal] at hwf)
+      rename_i fs
+      exact hdh (wUnion .v2 e disc (serB cfg .v2 e bs) fs) (by simp [ser])
   | arr _ _ => simp [Ty.lc5] at h5
   | struct x ms =>
     cases x with
